@@ -33,10 +33,25 @@ def _scan():
             elif hasattr(val, "cache_clear") and callable(getattr(val, "cache_clear")):
                 _CACHES.append(val)
             elif isinstance(val, type) and getattr(val, "__module__", None) == name:
-                for a2, v2 in list(vars(val).items()):
-                    f = getattr(v2, "__func__", v2)
-                    if hasattr(f, "cache_clear"):
-                        _CACHES.append(f)
+                _scan_class(val, 0)
+
+
+def _scan_class(cls, depth):
+    """Class attributes are shared by every instance - of this run and of the next."""
+    for a2, v2 in list(vars(cls).items()):
+        if a2.startswith("__"):
+            continue
+        f = getattr(v2, "__func__", v2)
+        if hasattr(f, "cache_clear"):
+            _CACHES.append(f)
+        elif isinstance(v2, (list, dict, set)) and len(v2) <= 4096:
+            try:
+                cp = copy.deepcopy(v2)
+            except Exception:                           # noqa: BLE001
+                cp = copy.copy(v2)
+            _SNAP.append((v2, cp))
+        elif isinstance(v2, type) and depth < 2 and v2.__qualname__.startswith(cls.__qualname__ + "."):
+            _scan_class(v2, depth + 1)
 
 
 def restore():
